@@ -595,7 +595,8 @@ def repr_values(condition: Callable[..., bool], lambda_inspection: Optional[Cond
 
         recompute_visitor = icontract._recompute.Visitor(
             variable_lookup=variable_lookup,
-            code_names=_collect_code_names(condition.__code__) if hasattr(condition, "__code__") else None)
+            code_names=_collect_code_names(condition.__code__) if hasattr(condition, "__code__") else None,
+            qualname=getattr(condition, "__qualname__", None))
 
         recompute_visitor.visit(node=lambda_inspection.node.body)
         recomputed_values = recompute_visitor.recomputed_values
